@@ -9,6 +9,9 @@ import (
 
 // C10 generates one run of reverse eight-character lookups under a simulated
 // clock and zone, with clock jumps and zone changes between calls.
+// LongP is the share of C10 runs that are long sessions (volume fault).
+var LongP = 0.015
+
 func C10(seed uint64, run int) *spec.Spec {
 	r := NewRng(seed, 10, run)
 	s := &spec.Spec{V: 1, Property: "C10", Seed: seed, Run: run, Decisions: []spec.Decision{}}
@@ -68,6 +71,16 @@ func C10(seed uint64, run int) *spec.Spec {
 		return t.Add(time.Duration(cur.ZoneS) * time.Second).Year()
 	}
 	n := r.Range(1, 6)
+	// volume fault, decided by a stream of its own (every other run stays what it was): a long session of 40..260
+	// lookups in one process, with the clock and zone faults of the run spread over it - whatever the lookup keeps
+	// between calls (results, term tables, the year it read) in a bounded structure is pushed past its capacity,
+	// and every one of the lookups is checked like any other
+	long := false
+	if r2 := NewRng(seed, 1010, run); r2.Chance(LongP) {
+		n = logUniform(r2, 40, 260)
+		long = true
+		f.Flood = true
+	}
 	for i := 0; i < n; i++ {
 		lk := spec.Lookup{}
 		if faulty && i > 0 && r.Chance(0.6) {
@@ -257,7 +270,7 @@ func C10(seed uint64, run int) *spec.Spec {
 		}
 		s.Lookups = append(s.Lookups, lk)
 	}
-	if r.Chance(0.12) {
+	if r.Chance(0.12) && !long {
 		c10Concurrent(s, r, curYear())
 	}
 	return s
